@@ -56,7 +56,7 @@ func (t *RichText) Draw(ctx vxfw.DrawContext) (vxfw.Surface, error) {
 	var row uint16
 	for scanner.Scan() {
 		var col uint16
-		if row > ctx.Max.Height {
+		if row >= ctx.Max.Height {
 			return s, nil
 		}
 
@@ -101,7 +101,7 @@ func (t *RichText) drawSoftwrap(ctx vxfw.DrawContext) (vxfw.Surface, error) {
 	var row uint16
 	for scanner.Scan() {
 		var col uint16
-		if row > ctx.Max.Height {
+		if row >= ctx.Max.Height {
 			return s, nil
 		}
 
